@@ -158,7 +158,7 @@ def run_selftest(stride=1):
     for f in BIN_BV:
         for a in BV_GRID:
             for b in BV_GRID:
-                if f in (op.lshift, op.rshift) and b > 16:
+                if f in (op.lshift, op.rshift) and b > 12:
                     continue
                 pa, ca = sym.var("a", "bv")
                 pb, cb = sym.var("b", "bv")
